@@ -1250,6 +1250,11 @@ def build_operator_operand_fixup(capture_error_state):
             for i in range(0, len(data), size[1])
         )
 
+    def operand_to_number(operand):
+        """Text which spells a logical stays text: ="TRUE"+1 is #VALUE!"""
+        convert_all = not isinstance(operand, str) or operand == EMPTY
+        return coerce_to_number(operand, convert_all=convert_all)
+
     def fixup(left_op, op, right_op):
         """Fix up python operations to be more excel like in these cases:
 
@@ -1302,8 +1307,8 @@ def build_operator_operand_fixup(capture_error_state):
                 right_op = str(right_op)
 
         else:
-            left_op = coerce_to_number(left_op, convert_all=True)
-            right_op = coerce_to_number(right_op, convert_all=True)
+            left_op = operand_to_number(left_op)
+            right_op = operand_to_number(right_op)
 
             if not (is_number(left_op) and is_number(right_op) or
                     is_address(left_op) and is_address(right_op)):
